@@ -35,6 +35,9 @@ def check(run):
     _provenance(run, P)
     _idw(run, P)
     _query_dependence(run, P)
+    # the inverse-distance result is a float-weighted sum: it must not be squeezed into the source data's dtype (nearest neighbour keeps the dtype by construction)
+    from ..rules import dtype as _dt
+    _dt.check_float_results(run, P, [f"{IDW}:_inverse_distance_weighted_remap"])
     _results(run, P)
 
 
@@ -249,10 +252,19 @@ def _provenance(run, P):
         probs = []
         if args != ["source_data", "source_grid", "destination_grid", "coord_type", "remap_to"]:
             probs.append(f"_remap_grid_parse called with {args}")
-        gathers = [n for n in ast.walk(g.node) if isinstance(n, ast.Subscript) and norm(n.value) == "source_data" and isinstance(n.slice, ast.Tuple)]
-        good = [n for n in gathers if len(n.slice.elts) == 2 and isinstance(n.slice.elts[0], ast.Constant) and n.slice.elts[0].value is Ellipsis and norm(n.slice.elts[1]) == idx_name]
-        if not good:
-            probs.append(f"the source values are not gathered as source_data[..., {idx_name}] (last axis = element axis, leading dimensions untouched)")
+        gdefs = LocalDefs(g.node)
+
+        def uses_idx(e):
+            nodes_, names_ = gdefs.closure(e)
+            return idx_name in names_ or any(isinstance(x, ast.Name) and x.id == idx_name for x in ast.walk(e))
+        gathers = [n for n in ast.walk(g.node) if isinstance(n, ast.Subscript) and isinstance(n.ctx, ast.Load) and norm(symx_strip(n.value)) == "source_data"]
+        good = [n for n in gathers if isinstance(n.slice, ast.Tuple) and len(n.slice.elts) == 2 and isinstance(n.slice.elts[0], ast.Constant) and n.slice.elts[0].value is Ellipsis and uses_idx(n.slice.elts[1])]
+        wrong_axis = [n for n in gathers if n not in good and uses_idx(n.slice)]
+        unknown_gather = False
+        if wrong_axis:
+            probs.append(f"the source values are gathered as {norm(wrong_axis[0])[:60]}: the neighbour indices select along the LAST axis (source_data[..., {idx_name}]); leading dimensions are left untouched")
+        elif not good:
+            unknown_gather = True
         # every return is the gathered data (or its weighted sum) - no path returns the source data itself
         for r in ast.walk(g.node):
             if isinstance(r, ast.Return) and r.value is not None:
@@ -262,8 +274,15 @@ def _provenance(run, P):
                     probs.append(f"a return path ({norm(r)[:50]}) does not depend on the nearest-neighbour indices")
         if probs:
             run.violation("IDX/remap-provenance", c, where(g, un), "; ".join(probs))
+        elif unknown_gather:
+            run.incomplete("IDX/remap-provenance", c, where(g, un), f"no gather source_data[..., <{idx_name}>] recognised (the source values may be gathered in an idiom this rule does not read)")
         else:
             run.holds("IDX/remap-provenance", c, where(g, un), f"source_data[..., {idx_name}] with indices from the source tree queried at the destination points")
+
+
+def symx_strip(e):
+    from .. import symx
+    return symx.strip_neutral(e)
 
 
 def _query_dependence(run, P):
